@@ -76,7 +76,16 @@ def weather_lookup(kw):
 
 
 def mgmt_in_force(trace, step):
-    return trace.init["fm"] if step["gs"] else trace.init["ffm"]
+    """The field management in force on a day *as the user configured it* (bund height in mm
+    like the model's own struct): in-season -> field_management, else fallow_field_management.
+    The model's copies are not used: a defect may sit exactly in how they were filled."""
+    um = (trace.user_spec.get("fm") if step["gs"] else trace.user_spec.get("ffm")) if getattr(trace, "user_spec", None) else None
+    if um is None and getattr(trace, "user_spec", None) is None:
+        return trace.init["fm"] if step["gs"] else trace.init["ffm"]
+    um = um or {}
+    return dict(bunds=bool(um.get("bunds", False)), z_bund=float(um.get("z_bund", 0.0)) * 1000.0,
+                bund_water=float(um.get("bund_water", 0.0)), mulches=bool(um.get("mulches", False)),
+                mulch_pct=float(um.get("mulch_pct", 50.0)), f_mulch=float(um.get("f_mulch", 0.5)))
 
 
 def pond_capacity(m):
